@@ -4,6 +4,10 @@
 #include <dsplib/math.h>
 #include <dsplib/utils.h>
 
+#ifdef DSPLIB_VERIF
+#include <dsplib/verif_hooks.h>
+#endif
+
 //For an explanation of the algorithm, see the article:
 //https://numericalrecipes.wordpress.com/2009/05/29/the-cooley-tukey-fft-algorithm-for-general-factorizations/
 
@@ -116,6 +120,9 @@ void _transpose(cmplx_t* restrict x, cmplx_t* restrict mem, int n, int m) noexce
             mem[j * n + i] = x[i * m + j];
         }
     }
+#ifdef DSPLIB_VERIF
+    verif::yield(1, mem);
+#endif
     std::memcpy(x, mem, n * m * sizeof(cmplx_t));
 }
 
@@ -133,6 +140,9 @@ void _facfft(const PlanTree* plan, cmplx_t* restrict x, cmplx_t* restrict mem, c
 
     if (!plan->has_next()) {
         plan->solver()->solve(x, mem, n);
+#ifdef DSPLIB_VERIF
+        verif::yield(1, mem);
+#endif
         std::memcpy(x, mem, n * sizeof(cmplx_t));
         return;
     }
